@@ -225,12 +225,20 @@ func randGraph(r *rng, withItems bool, twins bool) graph {
 	if ns >= 2 && r.chance(1, 20) { // cycle
 		parent[0] = ns - 1
 	}
+	// identifiers are case-sensitive: now and then the styles come in pairs that differ by letter case only (s0 / S0)
+	caseIDs := r.chance(1, 5)
+	sid := func(i int) string {
+		if caseIDs {
+			return []string{"s", "S"}[i%2] + strconv.Itoa(i/2*2)
+		}
+		return "s" + strconv.Itoa(i)
+	}
 	chain := func(i int) []string {
 		var o []string
 		seen := map[int]bool{}
 		for i >= 0 && !seen[i] {
 			seen[i] = true
-			o = append(o, "s"+strconv.Itoa(i))
+			o = append(o, sid(i))
 			i = parent[i]
 		}
 		return o
